@@ -15,8 +15,8 @@ import)
   ;;
 confirm)
   dir=$1; crate=$2; demo_src=$3; demo_dest=$4; shift 4
-  W=/var/tmp/mv-confirm/repo; T=/var/tmp/mv-confirm/target
-  mkdir -p /var/tmp/mv-confirm
+  CS=${SEED_CONFIRM_SLOT:-confirm}; W=/var/tmp/mv-$CS/repo; T=/var/tmp/mv-$CS/target
+  mkdir -p /var/tmp/mv-$CS/tmp; export TMPDIR=/var/tmp/mv-$CS/tmp
   export CARGO_INCREMENTAL=0 CARGO_PROFILE_DEV_DEBUG=0 CARGO_PROFILE_TEST_DEBUG=0
   if [ ! -e "$W/.git" ]; then git -C /repo worktree add --detach "$W" HEAD >/dev/null 2>&1; fi
   git -C "$W" checkout -q --detach "$(git -C /repo rev-parse HEAD)"; git -C "$W" checkout -q -- .; git -C "$W" clean -fdq
